@@ -50,7 +50,7 @@ fn rec_kinds() -> Vec<Vec<u8>> {
     ]
 }
 
-fn ref_decode_icmp(s: &[u8]) -> Vec<VIcmpIn> {
+pub fn ref_decode_icmp(s: &[u8]) -> Vec<VIcmpIn> {
     s.chunks_exact(REC)
         .map(|r| {
             let a: [u8; 16] = r[2..18].try_into().unwrap();
@@ -72,7 +72,7 @@ fn ref_decode_icmp(s: &[u8]) -> Vec<VIcmpIn> {
         .collect()
 }
 
-fn impl_decode_icmp(stream: &Bytes, cuts: &[usize]) -> Result<Vec<VIcmpIn>, String> {
+pub fn impl_decode_icmp(stream: &Bytes, cuts: &[usize]) -> Result<Vec<VIcmpIn>, String> {
     super::guarded(|| {
         let mut dec = vh::VIcmpDecoder::new();
         let mut out = vec![];
